@@ -11,3 +11,7 @@ func TestC04(t *testing.T) { Check(t, "C04") }
 func TestC10(t *testing.T) { Check(t, "C10") }
 func TestC19(t *testing.T) { Check(t, "C19") }
 func TestC20(t *testing.T) { Check(t, "C20") }
+func TestC05(t *testing.T) { Check(t, "C05") }
+func TestC07(t *testing.T) { Check(t, "C07") }
+func TestC08(t *testing.T) { Check(t, "C08") }
+func TestC09(t *testing.T) { Check(t, "C09") }
